@@ -35,6 +35,31 @@ type memConn struct {
 	mu     sync.Mutex
 	closed bool
 	onSend func(d *actions.SubscriptionMessageDelivery)
+	// hold: every Send parks (the client already has the message, the server's
+	// Send call has not returned yet) until the harness releases it
+	hold   bool
+	parked chan struct{}
+	parkID string
+}
+
+// release lets a parked Send return; reports whether one was parked.
+func (c *memConn) release() bool {
+	c.mu.Lock()
+	ch := c.parked
+	c.parked = nil
+	c.parkID = ""
+	c.mu.Unlock()
+	if ch != nil {
+		close(ch)
+		return true
+	}
+	return false
+}
+
+func (c *memConn) parkedID() string {
+	c.mu.Lock()
+	defer c.mu.Unlock()
+	return c.parkID
 }
 
 func (c *memConn) Close() error {
@@ -58,6 +83,17 @@ func (c *memConn) Receive(ctx context.Context) (*actions.MessageStreamRequest, e
 
 func (c *memConn) Send(ctx context.Context, d *actions.SubscriptionMessageDelivery) error {
 	c.onSend(d)
+	if c.hold {
+		ch := make(chan struct{})
+		c.mu.Lock()
+		c.parked, c.parkID = ch, d.ID.String()
+		c.mu.Unlock()
+		select {
+		case <-ch:
+		case <-ctx.Done():
+			return ctx.Err()
+		}
+	}
 	return nil
 }
 
@@ -65,7 +101,9 @@ type c11Cfg struct {
 	MaxMessages, MaxBytes int
 }
 
-var c11Events = []string{"pubSmall", "pubBig", "streamAck", "streamModack0", "streamNack", "extAck"}
+// The "...InSend" events settle a message while the Send call that carries it
+// has not returned yet (a client acks as soon as it has the bytes).
+var c11Events = []string{"pubSmall", "pubBig", "streamAck", "streamModack0", "streamNack", "extAck", "streamAckInSend", "extAckInSend"}
 
 const (
 	c11Topic = "projects/p/topics/t"
@@ -108,7 +146,7 @@ func (x *c11Exec) run(events []string) (viols []string, key string, enabled map[
 	defer w.SetBudget(0, nil)
 	var out []c11Out // sent and not yet acked / nacked, in send order
 	var vmu sync.Mutex
-	conn := &memConn{reqs: make(chan *actions.MessageStreamRequest)}
+	conn := &memConn{reqs: make(chan *actions.MessageStreamRequest), hold: true}
 	conn.onSend = func(d *actions.SubscriptionMessageDelivery) {
 		vmu.Lock()
 		defer vmu.Unlock()
@@ -139,8 +177,17 @@ func (x *c11Exec) run(events []string) (viols []string, key string, enabled map[
 	conn.reqs <- &actions.MessageStreamRequest{FlowControl: &actions.FlowControl{MaxMessages: x.cfg.MaxMessages, MaxBytes: x.cfg.MaxBytes}}
 	synctest.Wait()
 	bctx := context.Background()
+	// settleSends: let every parked Send return (repeatedly: the sender may send more)
+	settleSends := func() {
+		for i := 0; i < 1000; i++ {
+			synctest.Wait()
+			if x.spun || !conn.release() {
+				return
+			}
+		}
+	}
 	quiescent := func(after string) {
-		synctest.Wait()
+		settleSends()
 		if x.spun {
 			return
 		}
@@ -195,6 +242,36 @@ func (x *c11Exec) run(events []string) (viols []string, key string, enabled map[
 			vmu.Unlock()
 		}
 		switch ev {
+		case "streamAckInSend", "extAckInSend":
+			// provoke a fresh Send by publishing is not needed: re-create the window by
+			// nacking nothing; instead these events act on the NEXT send: publish a small
+			// message, wait until its Send is parked, settle it, then release the Send
+			// two messages become deliverable at once: the first one's Send is parked,
+			// the second one waits behind it (no later publish will "heal" anything)
+			if _, perr := w.Pub.Publish(bctx, &pubsubpb.PublishRequest{Topic: c11Topic, Messages: []*pubsubpb.PubsubMessage{{Data: payloadOf(10)}, {Data: payloadOf(10)}}}); perr != nil {
+				err = perr
+				break
+			}
+			synctest.Wait()
+			pid := conn.parkedID()
+			if pid == "" {
+				// flow control (correctly) holds the message back: nothing to do
+				break
+			}
+			vmu.Lock()
+			for i, o := range out {
+				if o.id == pid {
+					out = append(out[:i:i], out[i+1:]...)
+					break
+				}
+			}
+			vmu.Unlock()
+			if ev == "streamAckInSend" {
+				conn.reqs <- &actions.MessageStreamRequest{Ack: []uuid.UUID{uuid.MustParse(pid)}}
+			} else if _, aerr := w.Sub.Acknowledge(bctx, &pubsubpb.AcknowledgeRequest{Subscription: c11Sub, AckIds: []string{pid}}); aerr != nil {
+				err = aerr
+			}
+			synctest.Wait()
 		case "pubSmall", "pubBig":
 			n := 10
 			if ev == "pubBig" {
@@ -233,7 +310,7 @@ func (x *c11Exec) run(events []string) (viols []string, key string, enabled map[
 			for _, o := range out {
 				fmt.Fprintf(h, "|%d", o.bytes)
 			}
-			enabled = map[string]bool{"pubSmall": true, "pubBig": true}
+			enabled = map[string]bool{"pubSmall": true, "pubBig": true, "streamAckInSend": true, "extAckInSend": true}
 			if len(out) > 0 {
 				enabled["streamAck"], enabled["streamModack0"], enabled["streamNack"], enabled["extAck"] = true, true, true, true
 			}
